@@ -419,3 +419,20 @@ piece_loop2!(c01_bishop_nocheck_loop2, Bishop, r::BISHOP, false, 0);
 piece_loop2!(c01_rook_nocheck_loop2, Rook, r::ROOK, false, 0);
 piece_loop2!(c01_queen_nocheck_loop2, Queen, r::QUEEN, false, 0);
 piece_loop2!(c01_queen_check_loop2, Queen, r::QUEEN, true, 1);
+
+// ---------------------------------------------------------------- dispatch (collect_moves): supporting lemma for double check
+// (running the real collect_moves restricted to >= 2 checkers exhausted memory: all twelve generator instances are executed symbolically)
+/// spec-only lemma: in double check only king moves are legal (so generating only king moves loses nothing)
+#[kani::proof]
+#[kani::unwind(9)]
+fn c01_double_check_lemma() {
+    let b = any_board();
+    let p = view(&b);
+    kani::assume(r::one_king_each(&p) && r::at_most_16(&p) && r::ep_ok(&p));
+    kani::assume(r::checkers_spec(&p).count_ones() >= 2);
+    let s: u8 = kani::any();
+    let d: u8 = kani::any();
+    let promo: u8 = kani::any();
+    kani::assume(s < 64 && d < 64 && promo <= r::QUEEN && s != r::king_of(&p, p.turn));
+    assert!(!r::legal(&p, r::Mv { src: s, dst: d, promo }), "VERIF lemma: a non-king move {}->{} is legal in double check", s, d);
+}
